@@ -186,17 +186,32 @@ func (s *state) acquire() func() {
 	return s.release
 }
 
+// retired is added to refCount once a state has been replaced and its
+// finalizer stored. Only a release that brings the count down to exactly this
+// value is the last one of a retired state. The count of the current state
+// passes through plain zero all the time while readers come and go, and a
+// reader that observed such a zero must not run a finalizer that is stored
+// later, while newer readers are already using the state.
+const retired = 1 << 30
+
+// retire stores the finalizer of a state that has just been replaced and marks
+// it as retired. The caller must hold a reference to s.
+func (s *state) retire(fn func()) {
+	s.finalizer.Store(fn)
+	atomic.AddInt32(&s.refCount, retired)
+}
+
 func (s *state) release() {
 	// decrement on release
 	new := atomic.AddInt32(&s.refCount, -1)
-	if new == 0 {
+	if new == retired {
 		verifPoint("release.lastRef")
-		// Cleanup state associated with this version now all refs have gone. Since
-		// there are no more refs and we should not set a finalizer until this state
-		// is no longer the active state, we can be sure this will happen only one.
-		// Even still lets swap the fn to ensure we only call finalizer once ever!
-		// We can't swap actual nil as it's not the same type as func() so do a
-		// dance with a nilFn below.
+		// Cleanup state associated with this version now all refs have gone and
+		// it is no longer the active state. A reader that loaded the pointer
+		// before the state was retired may still bump the count briefly (it will
+		// notice the state is stale and release it again), so swap the fn to
+		// ensure we only call finalizer once ever! We can't swap actual nil as
+		// it's not the same type as func() so do a dance with a nilFn below.
 		var nilFn func()
 		fnRaw := s.finalizer.Swap(nilFn)
 		if fn, ok := fnRaw.(func()); ok && fn != nil {
